@@ -55,6 +55,9 @@ def gen_cases(tier, seed):
         drive = {"A": S.field_spec(rng, dev, o, ["uniform", "ramp", "uniform", "loop"][k % 4], b=float(rng.choice([0.15, 0.3]))),
                  "currents": S.current_spec(rng, dev, o, "const" if dev["terminals"] else "none", strength=0.1)}
         cases.append({"layer": "L2", "kind": "screening", "device": dev, "options": o, "drive": drive, "monitors": ["screening"], "cost": 60})
+        if k % 4 == 0:
+            # a sweep over the penetration depth on ONE Device object: the run before this one was a screening run of another material
+            cases[-1]["history"] = "layer_edited_screening"
     nw = 2 if tier == "quick" else 10
     for k in range(nw):
         # very weak drive: the induced potential is many orders below xi*Bc2, the convergence test is still a relative one
@@ -179,6 +182,13 @@ def run_case(spec):
         exc = rr.exception
         ups = [u for st in tm.stages for u in st["updates"]]
         saves = [s for st in tm.stages for s in st["saves"]]
+        failed_ = [u for u in ups if u.get("failed")]
+        if failed_ and exc is None:
+            # update() gave up (it raised) and tdgl.solve() nevertheless returned as if the run had been completed
+            C["nonconvergence_runs"] += 1
+            out["violations"].append({"kind": "nonconvergence_not_reported_to_the_caller", "mechanism": "nonconvergence_swallowed",
+                                      "detail": {"raised_inside_update": failed_[-1].get("exc", "")[:200], "at_step": failed_[-1].get("step"), "solve_returned": type(rr.solution).__name__,
+                                                 "frames_written": len(saves)}})
         if spec["kind"] == "nonconvergence":
             if isinstance(exc, RuntimeError) and "Screening" in str(exc):
                 C["nonconvergence_runs"] += 1
